@@ -66,6 +66,11 @@ func WorkerMain(t *testing.T) {
 	os.Setenv("XDG_CONFIG_HOME", home)
 	os.Setenv("GIT_CONFIG_NOSYSTEM", "1")
 	os.Setenv("GIT_TERMINAL_PROMPT", "0")
+	// command credential helper used by C10 (active only while
+	// VERIF_CMDHELPER=1 is exported by the run)
+	helperPath := filepath.Join(root, "credhelper.sh")
+	os.WriteFile(helperPath, []byte("#!/bin/sh\n[ \"$VERIF_CMDHELPER\" = 1 ] || exit 0\n[ \"$1\" = get ] || exit 0\nwhile read l; do case $l in protocol=*) p=${l#protocol=};; host=*) h=${l#host=};; esac; done\necho username=cmduser\necho password=cmd-$p-$h | tr ':' '_'\n"), 0755)
+	os.WriteFile(filepath.Join(home, ".gitconfig"), []byte("[credential]\n\thelper = "+helperPath+"\n"), 0644)
 	cwd := filepath.Join(root, "cwd")
 	os.MkdirAll(filepath.Join(cwd, ".git"), 0755)
 	os.Chdir(cwd)
